@@ -3,6 +3,7 @@ package main
 import (
 	"fmt"
 	"go/constant"
+	"go/token"
 	"go/types"
 	"sort"
 	"strings"
@@ -107,4 +108,43 @@ func sortFuncs(fs []*ssa.Function) {
 		}
 		return fs[i].Pos() < fs[j].Pos()
 	})
+}
+
+func errorType() types.Type { return types.Universe.Lookup("error").Type() }
+
+// comparedConstants: every integer constant that fn compares something with
+// (==, !=, <, <=, >, >=). Worlds take their representative values from this set
+// and its neighbours, so that every distinction the code itself makes is explored.
+func comparedConstants(fn *ssa.Function) []int64 {
+	seen := map[int64]bool{}
+	var visit func(f *ssa.Function)
+	visit = func(f *ssa.Function) {
+		for _, b := range f.Blocks {
+			for _, in := range b.Instrs {
+				bo, ok := in.(*ssa.BinOp)
+				if !ok {
+					continue
+				}
+				switch bo.Op {
+				case token.EQL, token.NEQ, token.LSS, token.LEQ, token.GTR, token.GEQ:
+				default:
+					continue
+				}
+				for _, v := range []ssa.Value{bo.X, bo.Y} {
+					if k, ok := v.(*ssa.Const); ok && k.Value != nil && k.Value.Kind() == constant.Int {
+						if n, exact := constant.Int64Val(k.Value); exact {
+							seen[n] = true
+						}
+					}
+				}
+			}
+		}
+	}
+	visit(fn)
+	out := make([]int64, 0, len(seen))
+	for n := range seen {
+		out = append(out, n)
+	}
+	sort.Slice(out, func(i, j int) bool { return out[i] < out[j] })
+	return out
 }
